@@ -270,6 +270,45 @@ def layer_inplace_macro(ctx, n):
             check_exception(ctx, e, clsname, want, what, replay)
 
 
+def layer_handled_then_later(ctx, n):
+    """A failure handled by tal:on-error (inside a macro, so that records were taken on its way out) followed by an
+    unrelated, unhandled failure: the message names the second failure only."""
+    from chameleon import PageTemplate
+    rng = ctx.rng
+    lib = PageTemplate('<lib><m metal:define-macro="m">[${f(1)}]</m></lib>')
+    for i in range(n):
+        shape = rng.choice(['external-macro', 'inplace-macro', 'nested-render'])
+        if shape == 'external-macro':
+            first = '<u metal:use-macro="lib.macros[\'m\']"/>'
+        elif shape == 'inplace-macro':
+            first = '<q metal:define-macro="q%d">${f(1)}</q>' % i
+        else:
+            first = '${structure: inner(f=f)}'
+        sep = rng.choice(['', '\n', ' text\n  '])
+        later = rng.choice(['${f(2)}', '<b tal:content="f(2)">x</b>', '<i tal:attributes="a f(2)">y</i>'])
+        src = '<html><div tal:on-error="string:FB">%s</div>%s%s</html>' % (first, sep, later)
+        clsname = rng.choice(['KeyError', 'ValueError', 'TwoArgs', 'ZeroDivisionError'])
+
+        def f(x, clsname=clsname):
+            if x == 1:
+                raise RuntimeError('handled failure')
+            raise MAKERS[clsname]()
+        inner = PageTemplate('<i>${f(1)}</i>')
+        off = src.index('f(2)')
+        want = [('f(2)', '<string>') + line_col(src, off)]
+        what = 'template %r: a failure handled by on-error (%s), then %s raised by f(2)' % (src, shape, clsname)
+        replay = {'kind': 'handled-then-later', 'src': src, 'cls': clsname}
+        ctx.case(key=('handled-then-later', shape, later[:4], bool(sep), clsname), nontrivial=True)
+        try:
+            out = PageTemplate(src)(f=f, lib=lib, inner=inner)
+            ctx.violation('failure-swallowed', what + ': render returned %r' % out[:80], replay)
+        except BaseException as e:   # noqa
+            if isinstance(e, RuntimeError):
+                ctx.violation('on-error-did-not-handle', what + ': the first failure propagated', replay)
+            else:
+                check_exception(ctx, e, clsname, want, what, replay)
+
+
 class TreeNode:
     def __init__(self, name, child=None):
         self.name, self.child = name, child
@@ -356,6 +395,7 @@ def run(ctx):
     layer_file_chain(ctx, 12 if ctx.quick else 200)
     layer_inplace_macro(ctx, 25 if ctx.quick else 400)
     layer_recursive_render(ctx, 20 if ctx.quick else 300)
+    layer_handled_then_later(ctx, 20 if ctx.quick else 300)
 
 
 def replay(data):
